@@ -151,7 +151,7 @@ func c20Entries() []c20Entry {
 }
 
 func c20Hostile() []string {
-	base := []string{"'", "''", "\\", "\\'", "\"", ";", "--", "/*", "*/", "$1", "$$", "%s", "\x00", "\n", "’", "＇", "x' OR '1'='1", "x'; DROP TABLE g_vertices; --", "x\\'; --", "1 OR 1=1", "1; DROP TABLE users", "a/*b*/c", "$q$x$q$", "E'\\x27'", "plain2", "43", "a-b", "a--b", "x-1_y", "a_b", "A.b"}
+	base := []string{"'", "''", "\\", "\\'", "\"", ";", "--", "/*", "*/", "$1", "$$", "%s", "\x00", "\n", "’", "＇", "x' OR '1'='1", "x'; DROP TABLE g_vertices; --", "x\\'; --", "1 OR 1=1", "1; DROP TABLE users", "a/*b*/c", "$q$x$q$", "E'\\x27'", "plain2", "43", "a-b", "a--b", "x-1_y", "a_b", "A.b", "a`b", "x`-`y", "a[b", "a^b", "Z_a"}
 	out := append([]string{}, base...)
 	for _, b := range base[:16] {
 		out = append(out, "pre"+b+"post")
@@ -282,6 +282,7 @@ func c20Exec(w *fw.Worker, c fw.Case) fw.Result {
 			if san(client) != "" {
 				bs = strings.Replace(bs, san(entry.Benign), "§", -1)
 				gs = strings.Replace(gs, san(client), "§", -1)
+				gs = strings.Replace(gs, strings.ToLower(san(client)), "§", -1) // the skeleton folds identifiers to lower case
 			}
 		}
 		if bs != gs {
@@ -325,7 +326,7 @@ func c20Exec(w *fw.Worker, c fw.Case) fw.Result {
 func init() {
 	fw.Register(&fw.Property{
 		ID:   "C20",
-		Rule: "every psql and existing-sql entry point that takes an id, label or name (GetVertex, GetEdge, DelVertex, DelEdge, VertexLabelScan, GetVertexChannel, the four adjacency channels with ids and with edge-label lists, AddVertex/AddEdge id, label, endpoint and property value, AddGraph, DeleteGraph, Graph; existing-sql ids of the form table:key) x 47 client strings (dashes and dots inside names, quotes, doubled quotes, backslashes, comment markers, statement separators, $1, $$, %s, NUL, newline, unicode quotes, classic injection payloads, alone and embedded). The backends run over a recording database/sql driver (injected through verif-tagged constructors); each call is made once with a benign string and once with the hostile one, and the statements are compared by a PostgreSQL tokenizer: same number of statements, same token skeleton, and every literal / bound argument that carried the benign string decodes to exactly the client string. Non-trivial = the benign call sends at least one statement.",
+		Rule: "every psql and existing-sql entry point that takes an id, label or name (GetVertex, GetEdge, DelVertex, DelEdge, VertexLabelScan, GetVertexChannel, the four adjacency channels with ids and with edge-label lists, AddVertex/AddEdge id, label, endpoint and property value, AddGraph, DeleteGraph, Graph; existing-sql ids of the form table:key) x 52 client strings (dashes and dots inside names, quotes, doubled quotes, backslashes, comment markers, statement separators, $1, $$, %s, NUL, newline, unicode quotes, classic injection payloads, alone and embedded). The backends run over a recording database/sql driver (injected through verif-tagged constructors); each call is made once with a benign string and once with the hostile one, and the statements are compared by a PostgreSQL tokenizer: same number of statements, same token skeleton, and every literal / bound argument that carried the benign string decodes to exactly the client string. Non-trivial = the benign call sends at least one statement.",
 		Assumptions: []string{
 			"PostgreSQL lexical rules with standard_conforming_strings on (a backslash is an ordinary character inside '...')",
 			"a call that is refused before any statement is sent is safe",
